@@ -22,6 +22,10 @@ const Bound = 10 * time.Second
 
 type attKey struct{}
 
+// doStuckSeen: a world of this process has already shown that Do does not
+// finish at shutdown.
+var doStuckSeen atomic.Bool
+
 func init() {
 	hook := func(ctx context.Context, point, dir, key string) {
 		a, ok := ctx.Value(attKey{}).(*Attempt)
@@ -56,6 +60,10 @@ type World struct {
 
 	consumerDone chan struct{}
 	consumerQuit chan struct{}
+
+	// DoStuck is set by Close when Do did not return although every
+	// Connect call had returned.
+	DoStuck bool
 
 	// JSON makes attempts log through a real slog JSON handler; every
 	// Write of the handler is recorded as a "json" event.
@@ -182,9 +190,17 @@ func (w *World) Close() (stuck []*Attempt) {
 			stuck = append(stuck, a)
 		}
 	}
+	wait := Bound
+	if doStuckSeen.Load() {
+		wait = 300 * time.Millisecond // already established in this process: do not pay the full bound again
+	}
 	select {
 	case <-w.DoDone:
-	case <-time.After(Bound):
+	case <-time.After(wait):
+		if len(stuck) == 0 {
+			w.DoStuck = true // every Connect has returned, yet Do does not finish
+			doStuckSeen.Store(true)
+		}
 	}
 	for i := range w.Lst {
 		w.B.RemoveEventListener(w.Lst[i])
